@@ -48,6 +48,8 @@ Definition run (req : sexp) : sexp :=
       or_bad (odo r <- as_bool run ;; odo h <- omap as_event evs ;;
               Some (s_list (fun o => SList [s_nat (fst o); s_res s_wires (snd o)]) (snd (lp_run r h))))
   | SList [SNum 12; SBytes w] => s_res s_values (parse_lp_packet_v2 w)
+  | SList [SNum 14; run; SBytes data; SBytes tok] =>
+      or_bad (odo r <- as_bool run ;; Some (s_res s_wires (put_raw_packet_with_pit_token_nocopy r data tok)))
   | SList [SNum 13; tl; SBytes w] => or_bad (odo b <- as_bool tl ;; Some (s_res s_values (parse_lp_packet_v2_gen b w)))
   | _ => s_bad_request
   end.
